@@ -153,6 +153,10 @@ def edits(prog):
         inner = stacks[p][-1] if stacks[p] else None
         inner_fam = family(inner) if inner is not None else None
         for fam, endtext in FOREIGN_ENDS:
+            if inner_fam == fam and fam == "do" and getattr(inner, "kind", "") == "do_label" and endtext.strip().lower() in ("end do", "enddo"):
+                # an END DO without label cannot close a DO that names a label
+                yield "insert-end:do|in:do_label", "insert %r before line %d (innermost open: labelled DO)" % (endtext, p + 1), text_of(prog[:p] + [endtext] + prog[p:])
+                continue
             if inner_fam == fam:
                 continue  # would close the innermost construct: may be valid
             if fam == "program" and inner_fam is None:
